@@ -1034,6 +1034,38 @@ func c17Laws(r *Run, c *c17Case, obs []c17StepObs) {
 				viol("frame", cls, fmt.Sprintf("step %d %v changed field %s: %s -> %s", i, o.cli(), f.goName, jo, jn))
 			}
 		}
+		// `add label --without-selector [--include-templates]` writes into the FIRST labels entry with
+		// includeSelectors: false and the same includeTemplates, or appends such an entry: every other
+		// entry of `labels` is one the command does not address and must come through unchanged
+		if o.Kind == "add label" && o.WoSel {
+			first := -1
+			for j, l := range kPrev.Labels {
+				if !l.IncludeSelectors && l.IncludeTemplates == o.Tpl {
+					first = j
+					break
+				}
+			}
+			bad := ""
+			if len(kNew.Labels) < len(kPrev.Labels) || len(kNew.Labels) > len(kPrev.Labels)+1 {
+				bad = fmt.Sprintf("%d entries became %d", len(kPrev.Labels), len(kNew.Labels))
+			}
+			for j := range kPrev.Labels {
+				if bad != "" || j == first {
+					continue
+				}
+				if a, b := c17JsonTok(kPrev.Labels[j]), c17JsonTok(kNew.Labels[j]); a != b {
+					bad = fmt.Sprintf("entry %d, which the command does not address: %s -> %s", j, a, b)
+				}
+			}
+			if bad == "" && len(kNew.Labels) == len(kPrev.Labels)+1 {
+				if n := kNew.Labels[len(kNew.Labels)-1]; n.IncludeSelectors || n.IncludeTemplates != o.Tpl || first >= 0 {
+					bad = "appended entry " + c17JsonTok(n) + fmt.Sprintf(" (a matching entry exists at %d)", first)
+				}
+			}
+			if bad != "" {
+				viol("frame", "frame-labels-entry:add label", fmt.Sprintf("step %d %v: %s", i, o.cli(), bad))
+			}
+		}
 		// an add of path-like items never introduces a duplicate entry (the lists behave like sets:
 		// every add command tests membership before appending) — independent of the model
 		if list := map[string]string{"add resource": "Resources", "add base": "Resources", "add component": "Components",
@@ -1709,6 +1741,13 @@ func genOp17(g *Rng, k *types.Kustomization, present []string, adversarial bool)
 		kind = g.Pick([]string{"add secret", "add configmap", "add secret"})
 		aimGen = true
 	}
+	// `add label --without-selector` must pick its labels entry by BOTH includeSelectors and includeTemplates:
+	// aim at files that already have labels entries (with selectors, with templates)
+	aimLabels := false
+	if len(k.Labels) > 0 && !aimGen && g.Chance(25) {
+		kind = "add label"
+		aimLabels = true
+	}
 	// `set configmap|secret` can only succeed on an existing entry: create one first when there is none
 	if kind == "set configmap" && len(k.ConfigMapGenerator) == 0 {
 		kind = "add configmap"
@@ -1773,6 +1812,11 @@ func genOp17(g *Rng, k *types.Kustomization, present []string, adversarial bool)
 		o.WoSel = g.Chance(35)
 		o.Tpl = g.Chance(15)
 		o.Force = g.Chance(30)
+		if aimLabels {
+			o.WoSel = true
+			o.Tpl = k.Labels[g.Intn(len(k.Labels))].IncludeTemplates
+			o.Force = g.Chance(50)
+		}
 		m := k.CommonLabels
 		if o.WoSel {
 			m = nil
